@@ -1,9 +1,9 @@
 (* C12 -- stereo signs are permutation-consistent.  Statements only; proofs in Proofs.StereoProofs.
    The two translation tables are regenerated from chython/algorithms/stereo.py on every run. *)
 From Coq Require Import ZArith List Bool.
-From Model Require Import PyBase Graph Stereo StereoRegistry StereoSmiles StereoFix.
+From Model Require Import PyBase Graph Stereo StereoRegistry StereoSmiles StereoFix StereoWedge.
 From Gen Require Import StereoTables.
-From Proofs Require Import StereoProofs StereoRegistryProofs StereoRegistryDisjoint StereoSmilesProofs StereoFixProofs.
+From Proofs Require Import StereoProofs StereoRegistryProofs StereoRegistryDisjoint StereoSmilesProofs StereoFixProofs StereoWedgeProofs.
 Import ListNotations.
 Open Scope Z_scope.
 
@@ -423,3 +423,29 @@ Theorem C12_fix_stereo_spec_example :
   fix_loop ex_mono 4 [] [(CT 2, false); (CT 1, true); (CT 3, true)] = [(CT 1, true); (CT 2, false)].
 Proof. exact fix_stereo_spec_example. Qed.
 Print Assumptions C12_fix_stereo_spec_example.
+
+(* ====================================================================================================================== *)
+(* add_wedge on allenes (Model.StereoWedge): wedge to the second substituent of a terminal atom = hash to the first one (one spatial
+   arrangement), for both terminal atoms; wedge and hash on one bond give opposite labels *)
+Theorem C12_wedge_allene_geminal : forall (isH : Z -> bool) n0 n1 n2 n3 t1 t2 c mark,
+  NoDup [n0; n1; n2; n3] -> isH n0 = false -> isH n1 = false -> isH n2 = false -> isH n3 = false ->
+  wedge_al isH (n0, n1, Some n2, Some n3) t1 t2 t1 n2 c mark = wedge_al isH (n0, n1, Some n2, Some n3) t1 t2 t1 n0 c (- mark) /\
+  wedge_al isH (n0, n1, Some n2, Some n3) t1 t2 t2 n3 c mark = wedge_al isH (n0, n1, Some n2, Some n3) t1 t2 t2 n1 c (- mark).
+Proof. exact wedge_al_geminal. Qed.
+Print Assumptions C12_wedge_allene_geminal.
+
+Theorem C12_wedge_allene_mark : forall (isH : Z -> bool) e t1 t2 n m c mark,
+  wedge_al isH e t1 t2 n m c (- mark) =
+  match wedge_al isH e t1 t2 n m c mark with Ok (Some b) => Ok (Some (negb b)) | r => r end.
+Proof. exact wedge_al_mark. Qed.
+Print Assumptions C12_wedge_allene_mark.
+
+Theorem C12_wedge_example :
+  let c := [(1, (-3, 2)); (2, (-2, 0)); (3, (-3, -2)); (4, (0, 0)); (5, (2, 0)); (6, (3, 2)); (7, (3, -2))] in
+  wedge_al (fun _ => false) (1, 6, Some 3, Some 7) 2 5 5 7 c 1 = Ok (Some false) /\
+  wedge_al (fun _ => false) (1, 6, Some 3, Some 7) 2 5 5 6 c (-1) = Ok (Some false) /\
+  wedge_al (fun _ => false) (1, 6, Some 3, Some 7) 2 5 5 6 c 1 = Ok (Some true) /\
+  wedge_al (fun _ => false) (1, 6, Some 3, Some 7) 2 5 2 1 c 1 = Ok (Some false) /\
+  api_drops_smiles_cache true = true.
+Proof. exact wedge_example. Qed.
+Print Assumptions C12_wedge_example.
